@@ -37,6 +37,10 @@ def main():
         traceback.print_exc()
         print(f"HARNESS-ERROR import failed: {e}")
         return 2
+    import logging
+    liblog = logging.getLogger("space_packet_parser")  # the library's log output is not part of any verdict
+    liblog.addHandler(logging.NullHandler())
+    liblog.propagate = False
     modname = f"vf.{args.prop.lower()}"
     try:
         seed = int(os.environ.get("VERIF_SEED", "1"))
